@@ -124,9 +124,9 @@ def runOpsX : List OpX → Sys → List Out × Sys
 def Spec.runOpsX (cap : Nat) : List OpX → List Elem → Nat → List Out × List Elem
   | [], xs, _ => ([], xs)
   | op :: rest, xs, next =>
-    let (xs', next', o) := Spec.stepX cap xs next op
-    let (os, xs'') := Spec.runOpsX cap rest xs' next'
-    (o :: os, xs'')
+    let st := Spec.stepX cap xs next op
+    let r := Spec.runOpsX cap rest st.1 st.2.1
+    (st.2.2 :: r.1, r.2)
 
 /-- **every finite history over the whole mutator API** (panic-free user code) produces the outputs and
 the final contents of the same history on the abstract deque, and ends in a good state -/
